@@ -12,6 +12,8 @@ BODIES = {
     "minusplus": [b" a", b"-b", b"+c"],
     "nonl": [b" a", b"-b", b"\\ No newline at end of file", b"+c", b"\\ No newline at end of file"],
 }
+# not in BODY_KINDS (used by C02 only): lines longer than delta's default --max-line-length (3000 bytes)
+BODIES["long"] = [b" a", b"-" + b"y" * 3100, b"+" + b"z" * 3100, b" " + b"w" * 3100]
 BODY_KINDS = ["ctx", "minus", "plus", "minusplus", "nonl"]
 
 
